@@ -135,6 +135,13 @@ func (db *DB) Merge() error {
 			return err
 		}
 	}
+	// 重写过程中切换产生的旧数据文件同样需要持久化并关闭,
+	// 否则 mmap 实现下这些文件会保持扩展后的大小被直接采用
+	for _, file := range mergeDB.olderFiles {
+		if err := file.Close(); err != nil {
+			return err
+		}
+	}
 
 	// 在 merge 临时目录创建并打开 merge 完成标识文件
 	mergeFinishedFile, err := datafile.OpenFile(mergePath, 0,
